@@ -179,3 +179,43 @@ Example ex_fixed_on_witnesses :
   (exists out, route fixed Linear 4 [SWg "SWAPalpha" (Some 4) 0 3] = Some out /\
                track out = Some (SWg "SWAPalpha" (Some 4) 0 3)).
 Proof. exact RouteMain.fixed_on_witnesses. Qed.
+
+(* ---- the laws HOLD for the library's real gate matrices (Gen.Gates, regenerated from operations/gates.py and
+        gateclass.py on every run), embedded by Found.Base.app, in every phase ring R and for all parameter values
+        (env maps an arg_value token to arbitrary parameter atoms): so the routing theorems are statements about
+        actual unitaries acting on every register ---- *)
+From QV Require Import Found.Circ Proofs.RouteReal.
+
+Theorem real_gate_laws : forall (R : PhaseRing) (env : option Z -> atoms R), sem_laws (state R) (act_real R env).
+Proof. exact real_laws. Qed.
+Print Assumptions real_gate_laws.
+
+Theorem route_one_unitary : forall (R : PhaseRing) (env : option Z -> atoms R) tp N g,
+  wf_handled g = true -> in_rangeb N g = true ->
+  exists out, route fixed tp N [g] = Some out /\
+              (forall st, run (state R) (act_real R env) out st = act_real R env g st) /\
+              forallb (adj2b tp N) out = true /\ forallb (in_rangeb N) out = true.
+Proof. exact route_one_real. Qed.
+Print Assumptions route_one_unitary.
+
+Theorem route_many_unitary : forall (R : PhaseRing) (env : option Z -> atoms R) tp N gs,
+  Forall (gate_ok N) gs ->
+  exists outs, route fixed tp N gs = Some (List.concat outs) /\
+               forall st, run (state R) (act_real R env) (List.concat outs) st = run (state R) (act_real R env) gs st.
+Proof.
+  intros R env tp N gs H.
+  destruct (RouteMain.route_many (state R) (act_real R env) (real_laws R env) tp N gs H) as [outs [E [_ S]]].
+  exists outs. split; assumption.
+Qed.
+Print Assumptions route_many_unitary.
+
+Theorem adjacent_gates_many_unitary : forall (R : PhaseRing) (env : option Z -> atoms R) N gs,
+  Forall (fun g => wf_handled g = true /\ in_rangeb N g = true) gs ->
+  exists outs, adjacent_gates fixed gs = Some (List.concat outs) /\
+               forall st, run (state R) (act_real R env) (List.concat outs) st = run (state R) (act_real R env) gs st.
+Proof.
+  intros R env N gs H.
+  destruct (RouteMain.adjacent_gates_many (state R) (act_real R env) (real_laws R env) N gs H) as [outs [E [_ S]]].
+  exists outs. split; assumption.
+Qed.
+Print Assumptions adjacent_gates_many_unitary.
